@@ -22,3 +22,9 @@ gate:
 clean:
 	cd coq && [ -f Makefile ] && $(MAKE) clean || true
 	rm -rf .cache
+
+# independent re-check of every compiled property file (and everything it depends on) with coqchk; lists the axioms the whole
+# development relies on.  Takes 10-30 minutes; the summary is kept in coqchk_report.txt.
+coqchk:
+	cd coq && timeout 7200 coqchk -silent -o -Q . TJ $$(ls Props/*.v | sed 's#Props/\(.*\)\.v#TJ.Props.\1#') > ../coqchk_full.log 2>&1; echo "coqchk exit status: $$?" >> ../coqchk_full.log
+	( echo "coqchk -o over all TJ.Props.* modules ($$(date -u +%FT%TZ), Coq $$(coqc --version | head -1))"; grep -n "exit status" coqchk_full.log; sed -n '/CONTEXT SUMMARY/,$$p' coqchk_full.log ) > coqchk_report.txt
